@@ -326,3 +326,43 @@ class RouteSinkLeaves:
 
 def unopt3(x):
     return x
+
+
+# ---- Machine.iter_links / Machine.__iter__: one candidate of the enumeration (fragments; the real __contains__ inlined) -----------------
+
+
+@contract("rig/place_and_route/machine.py::Machine.iter_links@forbody:2")
+class MachineIterLinksStep:
+    """one (chip, link) candidate: it is listed exactly when it is a working link of a working chip inside the machine - the links
+    of dead chips are not working links, whether or not they are listed as dead"""
+    properties = ("C14", "C03")
+    params = dict(self=MACHINE, x=TInt(), y=TInt(), link=TInt(0, 5))
+    fragment_result = ()
+    fragment_head = "for link in Links:"
+    yields = TTuple(TInt(), TInt(), TInt(0, 5))
+    options = {"int_class": "rig/links.py::Links", "no_merge": True}
+
+    def native(x):
+        raise __import__("pyvc.replay", fromlist=["OutsideHarness"]).OutsideHarness()
+
+    def ensures_listed_exactly_when_working(self, x, y, link, _yielded):
+        return (implies(working(self, x, y, link), len(_yielded) == 1 and _yielded[0] == (x, y, link))
+                and implies(not working(self, x, y, link), len(_yielded) == 0))
+
+
+@contract("rig/place_and_route/machine.py::Machine.__iter__@forbody:1")
+class MachineIterStep:
+    """one chip position: listed exactly when it lies inside the machine and is not dead"""
+    properties = ("C14", "C03")
+    params = dict(self=MACHINE, x=TInt(), y=TInt())
+    fragment_result = ()
+    fragment_head = "for y in range(self.height):"
+    yields = TTuple(TInt(), TInt())
+    options = {"no_merge": True}
+
+    def native(x):
+        raise __import__("pyvc.replay", fromlist=["OutsideHarness"]).OutsideHarness()
+
+    def ensures_listed_exactly_when_a_working_chip(self, x, y, _yielded):
+        ok = 0 <= x < self.width and 0 <= y < self.height and (x, y) not in self.dead_chips
+        return implies(ok, len(_yielded) == 1 and _yielded[0] == (x, y)) and implies(not ok, len(_yielded) == 0)
